@@ -117,6 +117,10 @@ func (eng *Engine) lemmaFacts(g *VCGen, pkg string, only map[string]bool) []stri
 		if only != nil && !only[l.Name] {
 			continue
 		}
+		if hasProp(l.Props, "local") && l.Pkg != pkg && only == nil {
+			// offered automatically only to functions of the lemma's own package
+			continue
+		}
 		if hasProp(l.Props, "manual") || (len(l.Pattern) == 0 && len(l.Params) > 0 && only == nil) {
 			// only lemmas written for automatic use (explicit patterns) are offered to the solver as quantified facts
 			continue
